@@ -36,6 +36,10 @@ type C20Case struct {
 	// "dir-with-empty" a directory holding an empty .sh and a .subr next to a
 	// normal file.  None of these is a fault: the run must succeed.
 	Src string `json:"src,omitempty"`
+	// StdinNull (with a terminal): the controlling terminal is there and is
+	// standard output, but standard input is /dev/null (cmd </dev/null): the
+	// session ends by itself at the end of input, like Ctrl+D.
+	StdinNull bool `json:"stdin_null,omitempty"`
 }
 
 // ctrlISource creates the Ctrl+I source of a case below dir and returns its path.
@@ -276,7 +280,11 @@ func runC20(t testing.TB, c C20Case) (key, what string, classes []string) {
 		}
 		init = &d
 	}
-	proc, err = Start(bin, args, env, tty, init)
+	stdinNull := tty && c.StdinNull
+	proc, err = StartWith(bin, args, env, tty, init, stdinNull)
+	if stdinNull {
+		classes = append(classes, "terminal-present-stdin-redirected")
+	}
 	if err != nil {
 		return "HARNESS", "start: " + err.Error(), classes
 	}
@@ -287,7 +295,13 @@ func runC20(t testing.TB, c C20Case) (key, what string, classes []string) {
 	desc := fmt.Sprintf("args %q tty=%v", args, tty)
 	healthy := len(reach) == 0 && c.Flag == ""
 	desc0 := fmt.Sprintf("args %q tty=%v", args, tty)
-	if healthy {
+	if stdinNull {
+		desc += " stdin=/dev/null"
+	}
+	if healthy && stdinNull {
+		// the end of input ends the session, whenever the program gets to it
+		classes = append(classes, "clean-exit-end-of-input")
+	} else if healthy {
 		if !proc.WaitOutput(30*time.Second, "Listening on") {
 			if proc.Exited() {
 				code, sig := proc.ExitCode()
@@ -376,7 +390,7 @@ func runC20(t testing.TB, c C20Case) (key, what string, classes []string) {
 		if !named {
 			return "cause-not-named", fmt.Sprintf("%s: exit status %d but the output names none of the causes %v: %q", desc, code, keysOf(reach), clip(out, 600)), classes
 		}
-	} else if healthy && code != 0 {
+	} else if healthy && code != 0 && !stdinNull {
 		return "clean-exit-status", fmt.Sprintf("%s: ended with %s but the exit status is %d; output %q", desc, c.Exit, code, clip(out, 600)), classes
 	}
 	return "", "", classes
@@ -476,6 +490,12 @@ func c20Cases(thorough bool) []C20Case {
 			cs = append(cs, C20Case{TTY: tty, Flag: fl, Termios: toggles[n%len(toggles)]})
 			n++
 		}
+	}
+	// a terminal is there, but standard input is not it
+	cs = append(cs, C20Case{TTY: true, StdinNull: true}, C20Case{TTY: true, StdinNull: true, GOGC: "1", Termios: toggles[n%len(toggles)]})
+	for _, f := range []string{"listen-syntax", "listen-in-use", "cache-corrupt", "cache-dir-unwritable", "log-is-dir"} {
+		cs = append(cs, C20Case{TTY: true, StdinNull: true, Faults: []string{f}, Termios: toggles[n%len(toggles)]})
+		n++
 	}
 	// Ctrl+I sources that exist but hold nothing (or nothing but empty
 	// files): printed, and converted at a Tab, like any other
@@ -582,6 +602,7 @@ func TestC20Random(t *testing.T) {
 		c.GOGC = rapid.SampledFrom([]string{"", "", "1", "10"}).Draw(rt, "gogc")
 		c.GoodLog = rapid.SampledFrom([]string{"", "", "flag", "env"}).Draw(rt, "goodlog")
 		c.Src = rapid.SampledFrom([]string{"", "", "", "empty-file", "empty-dir", "dir-with-empty"}).Draw(rt, "src")
+		c.StdinNull = c.TTY && rapid.IntRange(0, 3).Draw(rt, "stdinnull") == 0
 		nf := rapid.IntRange(0, 2).Draw(rt, "nfaults")
 		seen := map[string]bool{}
 		for i := 0; i < nf; i++ {
